@@ -98,6 +98,7 @@ class Tr:
         self.sig = sig
         self.pats = [(ast.parse(p['py'], mode='eval').body, p) for p in sig['patterns']]
         self.nk = 0
+        self.regions = {}
 
     # ------------------------------------------------------------ expressions
     def typ(self, name):
@@ -118,6 +119,12 @@ class Tr:
                         raise Unsupported(n, 'raising call nested in an expression')
                     args.append(paren(t))
                 return ent['coq'].format(*args), bool(ent.get('raises'))
+        if isinstance(n, ast.Name) and n.id in self.regions:      # a pinned region of statements: its primitive
+            reg = self.regions[n.id]
+            for nm, ty in reg['needs']:
+                if env.get(nm) != ty:
+                    raise Unsupported(n, 'name %r : %s is not bound where the pinned region starts' % (nm, ty))
+            return reg['coq'], False
         if isinstance(n, ast.Name):
             if n.id not in env:
                 raise Unsupported(n, 'unknown name %r' % n.id)
@@ -201,6 +208,8 @@ class Tr:
                 names = [s.targets[0].id]
             elif isinstance(s, ast.FunctionDef):
                 names = [s.name]
+            elif self.is_append(s):
+                names = [s.value.func.value.id]
             elif isinstance(s, ast.If):
                 names = self.assigned(s.body) + self.assigned(s.orelse)
             elif isinstance(s, ast.For):
@@ -211,6 +220,12 @@ class Tr:
                 if x not in out:
                     out.append(x)
         return out
+
+    @staticmethod
+    def is_append(s):
+        return isinstance(s, ast.Expr) and isinstance(s.value, ast.Call) and isinstance(s.value.func, ast.Attribute) \
+            and s.value.func.attr == 'append' and isinstance(s.value.func.value, ast.Name) \
+            and len(s.value.args) == 1 and not s.value.keywords
 
     def terminates(self, body):
         if not body:
@@ -285,6 +300,36 @@ class Tr:
                     return '%s %s' % (k, ' '.join(vs) or 'tt')
             return '%s%sif %s then\n%s\n%selse\n%s' % (pre, pad, c, self.stmts(s.body, dict(env), f2, ind + 1), pad,
                                                       self.stmts(s.orelse, dict(env), f2, ind + 1))
+        if self.is_append(s):
+            name = s.value.func.value.id
+            if name not in env or not env[name].startswith('list '):
+                raise Unsupported(s, 'append to %r' % name)
+            a, r = self.expr(s.value.args[0], env)
+            if r:       # the appended value is a raising call: bind it first
+                return '%srbind %s (fun appended =>\n%slet %s : %s := %s ++ [appended] in\n%s)' % (
+                    pad, paren(a), pad, name, env[name], name, self.stmts(rest, env, fall, ind))
+            return '%slet %s : %s := %s ++ [%s] in\n%s' % (pad, name, env[name], name, a, self.stmts(rest, env, fall, ind))
+        if isinstance(s, ast.For) and not s.orelse and (isinstance(s.target, ast.Tuple) or len(
+                [v for v in self.assigned(s.body) if v in env]) > 1):
+            tg = [s.target] if isinstance(s.target, ast.Name) else list(s.target.elts)
+            if not all(isinstance(x, ast.Name) for x in tg):
+                raise Unsupported(s, 'for target')
+            tn = [x.id for x in tg]
+            vs = [v for v in self.assigned(s.body) if v in env and v not in tn]
+            if not vs:
+                raise Unsupported(s, 'a loop must carry a bound name')
+            envb = dict(env)
+            for x in tn:
+                envb[x] = self.typ(x)
+            st_ty = ' * '.join(paren(env[v]) for v in vs)
+            it_ty = ' * '.join(paren(self.typ(x)) for x in tn)
+            tup = '(%s)' % ', '.join(vs) if len(vs) > 1 else vs[0]
+            bodyt = self.stmts(s.body, envb, lambda e: 'ROk %s' % tup, ind + 2)
+            it = self.pure(s.iter, env)
+            return ("%srbind (fold_left (fun (acc : result (%s)) (it : %s) => rbind acc (fun st : %s =>\n%s  let '%s := st in let '(%s) := it in\n%s)) "
+                    "%s (ROk %s)) (fun st : %s =>\n%slet '%s := st in\n%s)" % (
+                        pad, st_ty, it_ty, st_ty, pad, tup if len(vs) > 1 else '(%s)' % tup, ', '.join(tn), bodyt, paren(it), tup, st_ty,
+                        pad, tup if len(vs) > 1 else '(%s)' % tup, self.stmts(rest, env, fall, ind)))
         if isinstance(s, ast.For):
             if s.orelse or not isinstance(s.target, ast.Name):
                 raise Unsupported(s, 'for form')
@@ -375,6 +420,22 @@ def translate(sigpath, repo):
         head, tail = body[:n], body[n:]
         env = dict((p[0], p[1]) for p in e['params'])
         tr = Tr(sig)
+        # pinned regions inside the translated prefix: hashed, replaced by `name = <primitive>` or dropped
+        for k, reg in sorted(enumerate(e.get('regions', [])), key=lambda kr: -kr[1]['start']):
+            a, b = reg['start'], reg['start'] + reg['count']
+            if b > len(head):
+                raise Unsupported(fn, 'pinned region outside the translated statements')
+            h = dump_hash(head[a:b])
+            if h != reg['hash']:
+                raise Unsupported(head[a], 'pinned region %d of %s changed (AST hash %s, expected %s)' % (k, e['py'], h, reg['hash']))
+            repl = []
+            if reg.get('binds'):
+                key = '__region_%d__' % k
+                tr.regions[key] = reg
+                node = ast.Assign(targets=[ast.Name(id=reg['binds'], ctx=ast.Store())], value=ast.Name(id=key, ctx=ast.Load()))
+                ast.copy_location(node, head[a])
+                repl = [node]
+            head[a:b] = repl
         fall = None
         if tail:
             h = dump_hash(tail)
@@ -428,6 +489,8 @@ def main(argv):
                 print(name, ast_hash(ms[name]))
             for e in sig['emit']:
                 print(e['py'], 'tail', dump_hash(strip_doc(list(ms[e['py']].body))[e['translated_statements']:]))
+                for k, reg in enumerate(e.get('regions', [])):
+                    print(e['py'], 'region', k, dump_hash(strip_doc(list(ms[e['py']].body))[reg['start']:reg['start'] + reg['count']]))
         return 0
     failed = False
     for s in sigs:
